@@ -402,7 +402,7 @@ def correspond(ctx):
       samples=[sample], disagreements=dis, spec_failures=uniq,
       trusted_base=['correspondence harness corr_C02.py (sampled inputs; float64 1e-9, 1e-7 behind the solve; exact on the lattice)',
                     'MuJoCo 3.x (mj_forward fields, mj_fullM, mj_step) as the reference engine',
-                    'scan.tree / scan.link_types modelled as the recursion/slicing they implement (Layer B stage 1)',
+                    'scan.tree / scan.link_types: the grouped code is transcribed faithfully and PROVED equal to the recursion/slicing (Layer B stage 2, Props/C01, Props/C02); the transcriptions are tied to the real functions by an exhaustive exact-integer correspondence in the C01 check',
                     'jax.scipy.linalg.solve modelled as an exact linear solve (parameter `solve`)',
                     'constraint.force returns 0 when no contact candidate and no limit row is active (observed on every case)'],
       assumptions=['IEEE round-off not modelled; theorems over the reals / any field',
